@@ -515,6 +515,16 @@ def fam_reduce(rng, n, tier, mode="exact", grads=False):
                 L.append("grad a")
                 L.append("cleargrad a")
         cases.append(Case(L, ("maps", tuple(s), mode, grads), ["maps"], mode))
+        if grads:
+            # at x = 0 every exponent >= 1 has a perfectly good derivative (0, or 1 for exponent 1)
+            zv = gen_vals(rng, cnt, mode)
+            zv[rng.randrange(cnt)] = 0
+            L = ["new a %s %s" % (dims_s(s), vals_s(zv, mode)), "tracked a"]
+            for e in ([1, 2, 3] if mode == "exact" else [1.0, 2.0, 3.0, 1.5, 2.5]):
+                L += ["powf m a %s" % sc(e, mode), "new sd %s %s" % (dims_s(s), vals_s(gen_vals(rng, cnt, mode), mode)),
+                      "backward m sd", "grad a", "cleargrad a"]
+            L += ["relu m a", "backward m -", "grad a"]
+            cases.append(Case(L, ("powf0", tuple(s), mode), ["powf", "zero"], mode))
     return cases
 
 
@@ -1770,3 +1780,74 @@ def fam_scalar_edges(rng, n, tier, mode="float"):
 
 
 FAMILIES.update({"scalar_edges": fam_scalar_edges})
+
+AWKWARD = [5, 6, 7, 8, 9, 12, 13, 15, 16, 17, 20, 21, 23, 28, 31, 32, 33, 63, 64, 65]
+
+
+def fam_sizes(rng, n, tier, mode="exact", part="all", grads=False):
+    """lengths that are not small powers of two (5 .. 65): every loop that could be unrolled, chunked or
+    vectorised with a remainder - reductions, element maps, element-wise operations, the inner / row /
+    column loops of matmul, softmax rows, conv rows, a dense layer's input size"""
+    cases = []
+    small = lambda k: [rng.randint(-3, 3) for _ in range(k)] if mode == "exact" else floats(rng, k, -2, 2)
+    pos = lambda k: [rng.randint(1, 3) for _ in range(k)] if mode == "exact" else posfloats(rng, k)
+    lens = AWKWARD if tier == "thorough" else [5, 7, 9, 13, 16, 17, 20, 21, 23, 28, 33, 65]
+    for L in lens:
+        if part in ("all", "reduce"):
+            for dims, k in (([L], 1), ([2, L], 1), ([2, L], 2), ([L, 3], 2), ([L, 3], 1), ([2, 2, L], 3)):
+                P = ["new a %s %s" % (dims_s(dims), vals_s(small(prod(dims)), mode))]
+                if grads:
+                    P.append("tracked a")
+                P += ["sum r a %d" % k, "sumall a"]
+                if grads:
+                    od = dims[:len(dims) - k] + [1]
+                    P += ["new s %s %s" % (dims_s(od), vals_s(small(prod(od)), mode)), "backward r s", "grad a"]
+                cases.append(Case(P, ("sz-sum", L, tuple(dims), k, grads), ["sum", "len%d" % L], mode))
+            maps = ["neg", "relu", "scale", "powf"] + ([] if mode == "exact" else ["exp", "sigmoid", "recip", "ln", "softmax"])
+            for m in maps:
+                arg = {"scale": " " + sc(3, mode), "powf": " " + sc(2, mode)}.get(m, "")
+                d = [2, L] if m == "softmax" else [L]
+                P = ["new a %s %s" % (dims_s(d), vals_s(pos(prod(d)) if m in ("ln", "recip") else small(prod(d)), mode))]
+                if grads:
+                    P.append("tracked a")
+                P.append("%s r a%s" % (m, arg))
+                if grads:
+                    P += ["new s %s %s" % (dims_s(d), vals_s(small(prod(d)), mode)), "backward r s", "grad a"]
+                cases.append(Case(P, ("sz-map", L, m, grads), [m, "len%d" % L], mode))
+        if part in ("all", "ewise"):
+            for (da, db) in (([L], [L]), ([L], [1]), ([1], [L]), ([2, L], [L]), ([L, 2], [L, 1]), ([L, 1], [L, 2]), ([L, 1], [1, 3])):
+                for op in (["add", "mul", "sub"] if mode == "exact" else ["add", "mul", "sub", "div"]):
+                    P = ["new a %s %s" % (dims_s(da), vals_s(small(prod(da)), mode)),
+                         "new b %s %s" % (dims_s(db), vals_s(pos(prod(db)), mode))]
+                    if grads:
+                        P += ["tracked a", "tracked b"]
+                    P.append("%s r a b" % op)
+                    if grads:
+                        P += ["backward r -", "grad a", "grad b"]
+                    cases.append(Case(P, ("sz-ew", L, tuple(da), tuple(db), op, grads), [op, "len%d" % L], mode))
+        if part in ("all", "matmul"):
+            for (m_, k_, n_) in ((2, L, 3), (L, 2, 3), (2, 3, L)):
+                for ta in (False, True):
+                    for tb in (False, True):
+                        for cf in (0, 1):
+                            if L > 33 and (ta or cf):
+                                continue
+                            cases.append(Case(matmul_case(rng, [], [], m_, k_, n_, ta, tb, cf, mode, grads),
+                                              ("sz-mm", L, m_, k_, n_, ta, tb, cf, grads), ["matmul", "len%d" % L], mode))
+            if L <= 33:
+                cases.append(Case(matmul_case(rng, [2], [1], 2, L, 2, False, True, 1, mode, grads),
+                                  ("sz-mmb", L, grads), ["matmul", "batched", "len%d" % L], mode))
+        if part in ("all", "conv") and L <= 33:
+            for (rows, cols, fr, fc, sr, sc_) in ((3, L, 2, 2, 1, 1), (L, 3, 2, 2, 1, 1), (2, L, 1, 3, 1, 2), (4, L, 2, 3, 2, 1)):
+                P = ["new a %s %s" % (dims_s([1, rows, cols]), vals_s(small(rows * cols), mode)),
+                     "new f %s %s" % (dims_s([2, 1, fr, fc]), vals_s(small(2 * fr * fc), mode))]
+                if grads:
+                    P += ["tracked a", "tracked f"]
+                P.append("conv r a f %d %d" % (sr, sc_))
+                if grads:
+                    P += ["backward r -", "grad a", "grad f"]
+                cases.append(Case(P, ("sz-conv", L, rows, cols, fr, fc, sr, sc_, grads), ["conv", "len%d" % L], mode))
+    return cases
+
+
+FAMILIES.update({"sizes": fam_sizes})
